@@ -22,7 +22,7 @@ RULE = ('random rank 1-3 float64/complex128 tensors (sizes 1-4) of dyadic ration
         'int, complex scalar, real tensor, complex tensor} broadcastable to x x target likewise x sigma in {python scalar, 0-dim '
         'tensor, broadcastable tensor} with entries 0, 2^-30 (< 1e-8: triggers the fallback tweak) and dyadic values; scaled '
         'functionals nested 1-2 deep (python float/int and tensor scale); separable sums of 2-3 functionals; float64 tensor sigmas '
-        'bracketing the 1e-8 switch (2^-27, 2^-26) for the fallback; one fixed reproduction of KF-C08-1; an implementation-only '
+        'bracketing the 1e-8 switch (2^-27, 2^-26) for the fallback; corpus case = reproduction of the repaired KF-C08-1; an implementation-only '
         'family with irrational complex moduli (oracles, no model); a malformed stream (negative sigma / scale). Non-trivial = at least one element is actually thresholded/shrunk or reduced (numel > 1 and '
         'a non-zero sigma or a forward reduction); distinct by case hash.')
 TRUSTED_BASE = ['numpy reference formulas of the oracle (independent of the model)',
@@ -147,7 +147,7 @@ def sig_arr(sg, shape):
     return np.broadcast_to(np.array(sg['vals'], dtype=np.float64).reshape(sg['shape']), shape)
 
 
-def gen_elem(rng, shape, op, sigma, cls=None, x_complex=None, allow_quirk=True, exact_modulus=True):
+def gen_elem(rng, shape, op, sigma, cls=None, x_complex=None, exact_modulus=True):
     """one elementary functional + its input x; returns (elem spec, x spec)"""
     cls = cls or rng.choice(CLASSES)
     kind = KIND[cls]
@@ -159,8 +159,6 @@ def gen_elem(rng, shape, op, sigma, cls=None, x_complex=None, allow_quirk=True, 
         x_complex = rng.random() < 0.4
     w_c = w.get('im') is not None
     b_c = b.get('im') is not None
-    if kind == 'KL1R' and w_c and not (x_complex or b_c) and not (allow_quirk and op == 'forward'):
-        x_complex = True   # complex weight on purely real data is generated only for the forward family member (finding KF-C08-1)
     n = numel(shape)
     bb = bc(b, shape)
     bb = np.zeros(shape) if bb is None else bb
@@ -221,11 +219,7 @@ def extra_checks(ctx):
 
 
 def gen_elementary(rng, tier):
-    # fixed member: the reproduction of known finding KF-C08-1 (complex weight, real x and target, forward)
-    cases = [{'op': 'forward', 'sep': False, 'sigma': {'kind': 'py', 'shape': [], 'vals': [1.0]},
-              'xs': [{'shape': [2], 're': [2.0, -1.0], 'im': None}],
-              'funcs': [{'scales': [], 'elem': {'cls': 'L1NormViewAsReal', 'w': {'kind': 't', 'shape': [], 're': [3.0], 'im': [4.0]},
-                                                'b': {'kind': 'none'}, 'dim': None, 'divn': False, 'keepdim': False}}]}]
+    cases = []   # the reproduction of the repaired finding KF-C08-1 lives in corpus/C08/ and is run first by the driver
     n = 170 if tier == 'quick' else 4000
     for i in range(n):
         op = ['forward', 'prox', 'pcc'][i % 3]
@@ -268,7 +262,7 @@ def gen_generic_complex(rng, tier):
         shape = gen_shape(rng)
         sigma = gen_sigma(rng, shape)
         e, x = gen_elem(rng, shape, op, sigma, cls=rng.choice(['L1Norm', 'L1Norm', 'L1NormViewAsReal', 'L2NormSquared']),
-                        x_complex=True, allow_quirk=False, exact_modulus=False)
+                        x_complex=True, exact_modulus=False)
         scales = [gen_scale(rng, True)] if rng.random() < 0.3 else []
         cases.append({'op': op, 'funcs': [{'scales': scales, 'elem': e}], 'xs': [x], 'sigma': sigma, 'sep': False})
     return [_stat(c) for c in cases]
@@ -293,13 +287,13 @@ def gen_scaled(rng, tier):
         sigma = gen_sigma(rng, shape)
         scales = [gen_scale(rng, op == 'pcc') for _ in range(rng.choice([1, 1, 2]))]
         # the inner functional sees x / prod(scales) and sigma / prod(scales) in prox_convex_conj: Pythagorean data stays Pythagorean
-        e, x = gen_elem(rng, shape, op, sigma, allow_quirk=False)
+        e, x = gen_elem(rng, shape, op, sigma)
         cases.append({'op': op, 'funcs': [{'scales': scales, 'elem': e}], 'xs': [x], 'sigma': sigma, 'sep': False})
     for i in range(6 if tier == 'quick' else 60):   # malformed: negative scale -> ValueError in prox / prox_convex_conj
         op = ['prox', 'pcc'][i % 2]
         shape = gen_shape(rng)
         sigma = gen_sigma(rng, shape, positive=True)
-        e, x = gen_elem(rng, shape, op, sigma, allow_quirk=False)
+        e, x = gen_elem(rng, shape, op, sigma)
         cases.append({'op': op, 'funcs': [{'scales': [{'kind': 'py', 'v': -rng.choice([0.5, 2.0])}], 'elem': e}], 'xs': [x],
                       'sigma': sigma, 'sep': False, 'malformed': True})
     return [_stat(c) for c in cases]
@@ -315,7 +309,7 @@ def gen_separable(rng, tier):
         funcs, xs = [], []
         for _ in range(k):
             shape = gen_shape(rng, 16)
-            e, x = gen_elem(rng, shape, op, sigma, allow_quirk=False)
+            e, x = gen_elem(rng, shape, op, sigma)
             if op == 'forward':
                 e['dim'], e['keepdim'] = None, False   # scalar values can be added
             scales = [gen_scale(rng, op == 'pcc')] if rng.random() < 0.4 else []
